@@ -79,7 +79,8 @@ def handleVarsWith (c36 : Bool) : Handler := fun inp out => do
     pure (← strField d "name", ← varTypeOfString (← strField d "type"))
   let vars ← optJvalField inp "vars"
   let m := runVarsModel api decl vars
-  let exact := match vars with | some v => fmtExactAll v | none => true
+  -- numbers are json.Number (literal text) since ba56562: nothing is formatted through float64
+  let exact := true
   -- implementation
   let gStage ← strField out "stage"
   let nonNull (k : String) : Option Json := match out.getObjVal? k with
